@@ -206,30 +206,47 @@ func InclusiveRangeContains(
 	end := getFieldAsIntegerValue(context, rangeValue, sema.InclusiveRangeTypeEndFieldName)
 	step := getFieldAsIntegerValue(context, rangeValue, sema.InclusiveRangeTypeStepFieldName)
 
-	result := start.Equal(context, needleValue) ||
-		end.Equal(context, needleValue)
-
-	if result {
+	// The start is always a member of the sequence.
+	if start.Equal(context, needleValue) {
 		return TrueValue
 	}
 
-	// Exclusive check since we already checked for boundaries above.
-	if !isNeedleBetweenStartEndExclusive(context, needleValue, start, end) {
-		result = false
-	} else {
-		// needle is in between start and end.
-		// start + k * step should be equal to needle i.e. (needle - start) mod step == 0.
-		diff, ok := needleValue.Minus(context, start).(IntegerValue)
-		if !ok {
-			panic(errors.NewUnreachableError())
-		}
+	zeroValue := GetSmallIntegerValue(0, rangeType.ElementType)
+	stepNegative := bool(step.Less(context, zeroValue))
 
-		zeroValue := GetSmallIntegerValue(0, rangeType.ElementType)
-		mod := diff.Mod(context, step)
-		result = mod.Equal(context, zeroValue)
+	// All other members are after the start, and not beyond the end.
+	// NOTE: The end itself is only a member if it is reachable from the start in steps.
+	if !isNeedleAfterStartUpToEnd(context, needleValue, start, end, stepNegative) {
+		return FalseValue
 	}
 
-	return BoolValue(result)
+	// start + k * step should be equal to needle, i.e. needle and start must have
+	// the same remainder when divided by the step.
+	// NOTE: The difference of needle and start is not used, as it might not be representable.
+	needleMod := needleValue.Mod(context, step)
+	startMod := start.Mod(context, step)
+	if needleMod.Equal(context, startMod) {
+		return TrueValue
+	}
+
+	// The remainder has the sign of the dividend. If needle and start have different signs,
+	// the negative remainder is smaller than the positive one by the magnitude of the step.
+	lowerMod, upperMod := needleMod, startMod
+	if upperMod.Less(context, lowerMod) {
+		lowerMod, upperMod = upperMod, lowerMod
+	}
+	if !lowerMod.Less(context, zeroValue) || !upperMod.Greater(context, zeroValue) {
+		return FalseValue
+	}
+
+	var shiftedMod NumberValue
+	if stepNegative {
+		shiftedMod = lowerMod.Minus(context, step)
+	} else {
+		shiftedMod = lowerMod.Plus(context, step)
+	}
+
+	return BoolValue(shiftedMod.Equal(context, upperMod))
 }
 
 func getFieldAsIntegerValue(context ContainerElementContext, rangeValue *CompositeValue, name string) IntegerValue {
@@ -238,17 +255,20 @@ func getFieldAsIntegerValue(context ContainerElementContext, rangeValue *Composi
 	)
 }
 
-func isNeedleBetweenStartEndExclusive(
+func isNeedleAfterStartUpToEnd(
 	context ValueComparisonContext,
 	needleValue IntegerValue,
 	start IntegerValue,
 	end IntegerValue,
+	stepNegative bool,
 ) bool {
-	greaterThanStart := needleValue.Greater(context, start)
-	greaterThanEnd := needleValue.Greater(context, end)
+	if stepNegative {
+		return bool(needleValue.Less(context, start)) &&
+			!bool(needleValue.Less(context, end))
+	}
 
-	// needle is in between start and end values if is greater than one and smaller than the other.
-	return bool(greaterThanStart) != bool(greaterThanEnd)
+	return bool(needleValue.Greater(context, start)) &&
+		!bool(needleValue.Greater(context, end))
 }
 
 func isSequenceMovingAwayFromEnd(
